@@ -157,6 +157,17 @@ pub fn exec(op: &str, a: &[Vec<u8>]) -> Option<Resp> {
             }
             Resp::Ok(o)
         }
+        "rs.sum_many" => {
+            let ps = need!(split32(&a[0]));
+            let mut acc = Aff::IDENTITY;
+            for p in ps.iter() {
+                acc = acc.add(&need!(rp(p)));
+            }
+            let e = rist::encode(&acc);
+            let mut o = e.to_vec();
+            o.extend_from_slice(&e);
+            Resp::Ok(o)
+        }
         "rs.reps" => {
             let p = need!(rp(&a[0]));
             let mut o = a[0].clone();
